@@ -1,5 +1,178 @@
-import MptModel.Impl.Ident
+/-
+  C16 — Names are stored and compared faithfully at every length.
+
+  Objects (Impl/Ident.lean): an identifier `id : Ident` is the header fields plus the cell list of the storage from
+  `_val` on, in which the pointer `_base` overlays the inline bytes; `h : Heap` is the allocation log.
+  `Wf id h k` (Lemmas/Ident.lean): the identifier is a consistent `struct identifier` of slot `k` in storage of at
+  least 16 bytes — inline content readable, or `_base` a live block of the right length owned by `k`;
+  `Own id h k`: every live block of owner `k` is the one `id` points to (nothing leaked);
+  `Holds id h k cs d`: both, and the identifier reads back (through `mpt_identifier_data` and `_len`) as the bytes
+  `d` with charset `cs`.  A text `name` is stored as `name ++ [0]` (the length field counts the terminator).
+  The theorems hold for every storage size (>= 16 bytes; 16..256 are instances), every previous content and
+  placement (inline or allocated), every new length up to the 16-bit limit.
+-/
+import MptModel.Lemmas.Ident
 import MptModel.Spec.Ident
 namespace Mpt.C16
-theorem placeholder : True := trivial
+open Mpt.Ident
+
+/- ------------------------------------------------------------------------------------------------
+   readback
+   ------------------------------------------------------------------------------------------------ -/
+
+/-- **readback**: setting a well-formed identifier — whatever it held, inline or allocated — to a text of up to
+    65534 bytes succeeds, and the identifier then reads back as exactly that text (followed by its terminator)
+    with length `name.length + 1`, charset UTF8; storage size and capacity are unchanged, blocks of other
+    identifiers are untouched. -/
+theorem readback {id : Ident} {h : Heap} {k : Nat} (hw : Wf id h k) (ho : Own id h k) (name : List Byte)
+    (hn : name.length ≤ 65534) :
+    ∃ id' h', set id h k (some (name ++ [0])) name.length = .ok (id', h', true) ∧
+      view id' h' = .ok (utf8, name ++ [0]) ∧ id'.len = name.length + 1 ∧
+      Wf id' h' k ∧ Own id' h' k ∧ Frame h h' k ∧ id'.max = id.max ∧ id'.area.length = id.area.length := by
+  obtain ⟨id', h', hs, hh, hf, hm, ha⟩ := set_text hw ho name (by omega)
+  refine ⟨id', h', hs, ?_, by rw [hh.len]; simp, hh.wf, hh.own, hf, hm, ha⟩
+  simp [view, hh.read, hh.cs, bind, Except.bind, pure, Except.pure, utf8]
+
+/-- the documented limit: a text of 65535 bytes or more is refused and nothing changes -/
+theorem readback_limit (id : Ident) (h : Heap) (k : Nat) (name : List Byte) (hn : 65535 ≤ name.length) :
+    set id h k (some (name ++ [0])) name.length = .ok (id, h, false) :=
+  set_text_refused id h k name (by omega)
+
+/-- zero name pointer: `n ≤ 65535` cleared bytes of non-printable content (charset 0); `n = 0` unsets -/
+theorem readback_null {id : Ident} {h : Heap} {k : Nat} (hw : Wf id h k) (ho : Own id h k) (n : Nat) (hn : n ≤ 65535) :
+    ∃ id' h', set id h k none n = .ok (id', h', true) ∧ view id' h' = .ok (0, List.replicate n 0) ∧ id'.len = n ∧
+      Wf id' h' k ∧ Own id' h' k ∧ Frame h h' k := by
+  obtain ⟨id', h', hs, hh, hf, _⟩ := set_null hw ho n hn
+  refine ⟨id', h', hs, ?_, by rw [hh.len]; simp, hh.wf, hh.own, hf⟩
+  simp [view, hh.read, hh.cs, bind, Except.bind, pure, Except.pure]
+
+/-- `len = -1` reads the text as a C string -/
+theorem readback_cstr (id : Ident) (h : Heap) (k : Nat) (buf : List Byte) :
+    set id h k (some buf) (-1) = set id h k (some buf) (strlen buf) := set_cstr id h k buf
+
+/-- **every (storage size, previous length, new length) triple**: a new identifier in storage of `size >= 16`
+    bytes, set to `old`, then set to `new`, reads back as `new` — for all sizes and all lengths up to 65534,
+    across the inline capacity in either direction. -/
+theorem readback_triple (size : Nat) (hs : 16 ≤ size) (old new : List Byte) (ho : old.length ≤ 65534) (hn : new.length ≤ 65534) :
+    ∃ id0 id1 h1 id2 h2, create size = .ok id0 ∧
+      set id0 ⟨[]⟩ 0 (some (old ++ [0])) old.length = .ok (id1, h1, true) ∧
+      set id1 h1 0 (some (new ++ [0])) new.length = .ok (id2, h2, true) ∧
+      view id2 h2 = .ok (utf8, new ++ [0]) ∧ id2.len = new.length + 1 := by
+  obtain ⟨id0, hc, hh0, _⟩ := create_spec size hs ⟨[]⟩ 0 (by intro t b hb; simp at hb)
+  obtain ⟨id1, h1, hs1, _, _, hw1, ho1, _⟩ := readback hh0.wf hh0.own old ho
+  obtain ⟨id2, h2, hs2, hv2, hl2, _⟩ := readback hw1 ho1 new hn
+  exact ⟨id0, id1, h1, id2, h2, hc, hs1, hs2, hv2, hl2⟩
+
+/-- 16 bytes of storage hold 11 bytes of text inline; the 12th moves the content to a block and back -/
+example : (do
+    let id0 ← create 16
+    let (id1, h1, _) ← set id0 ⟨[]⟩ 0 (some ([1,2,3,4,5,6,7,8,9,10,11,12] ++ [0])) 12
+    let (id2, h2, _) ← set id1 h1 0 (some ([7,7,7,7,7,7] ++ [0])) 6
+    pure (id1.len, id1.max, id2.len, h2.blocks.map Block.live)).toOption =
+    some (13, 12, 7, [false]) := by decide
+example : (do
+    let id0 ← create 16
+    let (id1, h1, _) ← set id0 ⟨[]⟩ 0 (some ([1,2,3,4,5,6,7,8,9,10,11,12] ++ [0])) 12
+    let (id2, h2, _) ← set id1 h1 0 (some ([7,7,7,7,7,7] ++ [0])) 6
+    pure (id2.len, h2.blocks.map Block.live, (view id2 h2).toOption)).toOption =
+    some (7, [false], some (1, [7,7,7,7,7,7,0])) := by decide
+
+/- ------------------------------------------------------------------------------------------------
+   copy_equal_source_untouched
+   ------------------------------------------------------------------------------------------------ -/
+
+/-- **copy**: copying a source that holds `(cs, d)` into a different well-formed identifier — of any storage
+    size, whatever it held — succeeds; the target then reads back as `(cs, d)`, and the source still reads back as
+    `(cs, d)` in the new heap (it stays well-formed and keeps its block). -/
+theorem copy_equal_source_untouched {dst src : Ident} {h : Heap} {k j cs : Nat} {d : List Byte}
+    (hw : Wf dst h k) (ho : Own dst h k) (hs : Holds src h j cs d) (hjk : j ≠ k) :
+    ∃ dst' h', copy dst (some src) false h k = .ok (dst', h', true) ∧
+      view dst' h' = .ok (cs, d) ∧ view src h' = .ok (cs, d) ∧
+      Holds dst' h' k cs d ∧ Holds src h' j cs d := by
+  obtain ⟨dst', h', hc, hh, hf, _⟩ := copy_spec hw ho hs
+  have hs' := hs.frame hf hjk
+  refine ⟨dst', h', hc, ?_, ?_, hh, hs'⟩
+  · simp [view, hh.read, hh.cs, bind, Except.bind, pure, Except.pure]
+  · simp [view, hs'.read, hs'.cs, bind, Except.bind, pure, Except.pure]
+
+/-- copy onto itself, and copy from the zero pointer -/
+theorem copy_self_unchanged {id : Ident} {h : Heap} {k : Nat} (hw : Wf id h k) :
+    copy id (some id) true h k = .ok (id, h, true) := copy_self hw
+
+theorem copy_null_unsets {dst : Ident} {h : Heap} {k : Nat} (hw : Wf dst h k) (ho : Own dst h k) :
+    ∃ dst' h', copy dst none false h k = .ok (dst', h', true) ∧ view dst' h' = .ok (0, []) ∧ Holds dst' h' k 0 [] := by
+  obtain ⟨dst', h', hc, hh, _⟩ := copy_null hw ho
+  refine ⟨dst', h', hc, ?_, hh⟩
+  simp [view, hh.read, hh.cs, bind, Except.bind, pure, Except.pure]
+
+/-- the case of defect #18: the target holds 20 allocated bytes, the source 8 inline bytes -/
+example : (do
+    let a ← create 16
+    let b ← create 16
+    let (a1, h1, _) ← set a ⟨[]⟩ 0 (some (List.replicate 20 0x61 ++ [0])) 20
+    let (b1, h2, _) ← set b h1 1 (some (List.replicate 8 0x62 ++ [0])) 8
+    let (a2, h3, _) ← copy a1 (some b1) false h2 0
+    pure ((view a2 h3).toOption, (view b1 h3).toOption, h3.blocks.map Block.live)).toOption =
+    some (some (1, List.replicate 8 0x62 ++ [0]), some (1, List.replicate 8 0x62 ++ [0]), [false]) := by decide
+
+/- ------------------------------------------------------------------------------------------------
+   compare_iff_equal
+   ------------------------------------------------------------------------------------------------ -/
+
+/-- **text comparison**: for an identifier that holds the text `c`, `mpt_identifier_compare(id, b, len b)` is zero
+    exactly when `b = c` -/
+theorem compare_iff_equal {id : Ident} {h : Heap} {k : Nat} {c : List Byte} (hh : Holds id h k utf8 (c ++ [0])) (b : List Byte) :
+    ∃ r, compare id h (some (b ++ [0])) b.length = .ok r ∧ (r = 0 ↔ b = c) :=
+  compare_text hh b
+
+/-- an identifier that holds no text (unset, or non-printable content) equals no text -/
+theorem compare_nontext_differs {id : Ident} {h : Heap} (hc : id.charset ≠ utf8) (b : List Byte) (n : Int) :
+    compare id h (some b) n = .ok Err.BadType.code ∧ Err.BadType.code ≠ 0 :=
+  ⟨compare_nontext hc b n, by decide⟩
+
+/-- **identifier comparison**: `mpt_identifier_inequal` is zero exactly for the same charset and the same bytes,
+    whatever the storage sizes and placements of the two identifiers -/
+theorem inequal_iff_equal {a b : Ident} {h : Heap} {ka kb ca cb : Nat} {da db : List Byte}
+    (ha : Holds a h ka ca da) (hb : Holds b h kb cb db) :
+    ∃ r, inequal a b h = .ok r ∧ (r = 0 ↔ ca = cb ∧ da = db) :=
+  inequal_spec ha hb
+
+example : (do
+    let a ← create 16
+    let (a1, h1, _) ← set a ⟨[]⟩ 0 (some ([0x61, 0x62, 0x63] ++ [0])) 3
+    pure ((compare a1 h1 (some ([0x61, 0x62, 0x63] ++ [0])) 3).toOption, (compare a1 h1 (some ([0x61, 0x62, 0x64] ++ [0])) 3).toOption,
+          (compare a1 h1 (some ([0x61, 0x62] ++ [0])) 2).toOption)).toOption =
+    some (some 0, some 3, some (-16)) := by decide
+
+/- ------------------------------------------------------------------------------------------------
+   heap_discipline
+   ------------------------------------------------------------------------------------------------ -/
+
+/-- **heap discipline, one operation**: in a system of identifiers that satisfies the invariant (every identifier
+    well-formed; every live block referenced by the live identifier that owns it) no operation — new, set, copy,
+    end of life by `set(0,0)`, traits init/fini — faults: in the model a fault is a free of a wild, already freed
+    or foreign block, a read through a clobbered or stale pointer, of a freed block or of non-data bytes, or an
+    access outside the storage.  The invariant is kept, and an identifier that ends leaves no block behind. -/
+theorem heap_discipline_step {s : Sys} (hi : SysInv s) (op : Op) (hv : op.valid) :
+    ∃ s' r, s.step op = .ok (s', r) ∧ SysInv s' ∧ (∀ n, r = .ended n → n = 0) :=
+  step_inv hi op hv
+
+/-- **heap discipline, all histories**: every history of operations (storage >= 16 bytes, buffers as long as
+    announced) from the empty system runs without a fault and ends in a system where every live block is the
+    content of exactly the identifier that owns it. -/
+theorem heap_discipline (ops : List Op) (hv : ∀ op, op ∈ ops → op.valid) :
+    ∃ s, Sys.empty.run ops = .ok s ∧ SysInv s :=
+  run_inv SysInv.empty ops hv
+
+/-- when all identifiers have ended, no block is live -/
+theorem no_leak_at_end {s : Sys} (hi : SysInv s) (hall : ∀ k, s.get k = none) :
+    ∀ (t : Nat) (b : Block), s.heap.blocks[t]? = some b → b.live = false := by
+  intro t b hb
+  exact hi.dead (hall b.owner) t b hb rfl
+
+example : (do
+    let s ← Sys.empty.run [.new 16, .new 32, .set 0 (some (List.replicate 99 0x61)) 99, .set 1 (some [0x62, 0x62]) 2,
+      .copy 0 (some 1), .copy 1 (some 0), .tinit (some 0), .set 0 none 40, .free 0, .tfini 2, .free 1]
+    pure (s.heap.blocks.map Block.live, s.ids)).toOption = some ([false, false], [none, none, none]) := by decide
+
 end Mpt.C16
